@@ -157,3 +157,27 @@ CHECKS["C11"] = dict(
     technique="property-based testing (rapid) + native go fuzzing; totality and metamorphic oracle",
     design_ref="DESIGN.md section 4, C11",
 )
+
+CHECKS["C12"] = dict(
+    pkg="c12", level="exploration",
+    props=[dict(name="TestPropRoundTrip", quick=60000, thorough=16 * 400000, shards_quick=6, shards_thorough=16, timeout_thorough=7200),
+           dict(name="TestPropTotality", quick=160000, thorough=16 * 1000000, shards_quick=8, shards_thorough=16, timeout_thorough=7200)],
+    fuzz=[dict(name="FuzzDecoders", seconds=300)],
+    rule="round trips: generated points (times over years 1..9999 with nanoseconds and drawn zones, value bit patterns "
+         "incl. NaN payloads, arbitrary UTF-8 type/key/text/origin, binary data, int32 tombstones) and nodes (id, type, "
+         "parent, uint32 hash, both point lists) through Points.ToPb/PbDecodePoints, NodeEdge.ToPb/PbDecodeNode, "
+         "Nodes.ToPb/PbDecodeNodes and hand-marshalled node/nodes replies through PbDecodeNodeRequest/PbDecodeNodesRequest, "
+         "every field compared (value by Float64bits, time to the nanosecond). Totality: raw random bytes or valid "
+         "encodings damaged by 0-3 mutations (truncate, overwrite, insert, huge varint, duplicate chunk) x arbitrary "
+         "subjects, fed to all twelve decoders (points, node, nodes, both replies, serial points, high-rate payload, serial "
+         "packet, four subject parsers): value or error, never a panic. Non-trivial: round trip = a point with data and a "
+         "non-UTC or sub-microsecond time; totality = at least one decoder accepted the bytes.",
+    assumptions=["strings are valid UTF-8 (protobuf rejects anything else at marshalling time)",
+                 "reply messages are marshalled by the harness with protowire because internal/pb cannot be imported"],
+    level_text="Generated values and damaged encodings (rapid) plus a coverage-guided native fuzz target (thorough) over all "
+               "decoders; round-trip oracle with field-by-field equality, totality oracle with recover().",
+    level_note="Trusted: protowire hand-marshalling of the two reply messages matches internal/pb/node.proto (checked by the "
+               "round trip itself).",
+    technique="property-based testing (rapid) + native go fuzzing; round-trip and totality oracles",
+    design_ref="DESIGN.md section 4, C12",
+)
